@@ -47,17 +47,20 @@ var selectorMap = map[string]repl{
 	"net.DialUDP":        {"simnet", "DialUDP"},
 	"github.com/Jigsaw-Code/outline-sdk/transport.TCPDialer": {"simnet", "TCPDialer"},
 	"github.com/Jigsaw-Code/outline-sdk/transport.UDPDialer": {"simnet", "UDPDialer"},
-	"os.ReadFile":      {"simos", "ReadFile"},
-	"os/signal.Notify": {"simos", "Notify"},
-	"os/signal.Stop":   {"simos", "Stop"},
-	"time.Now":         {"simrt", "Now"},
-	"time.Since":       {"simrt", "Since"},
-	"time.Until":       {"simrt", "Until"},
-	"time.Sleep":       {"simrt", "Sleep"},
-	"time.After":       {"simrt", "AfterChan"},
-	"time.AfterFunc":   {"simrt", "AfterFunc"},
-	"time.NewTimer":    {"simrt", "NewTimer"},
-	"time.Timer":       {"simrt", "Timer"},
+	"os.ReadFile":          {"simos", "ReadFile"},
+	"os/signal.Notify":     {"simos", "Notify"},
+	"os/signal.Stop":       {"simos", "Stop"},
+	"time.Now":             {"simrt", "Now"},
+	"time.Since":           {"simrt", "Since"},
+	"time.Until":           {"simrt", "Until"},
+	"time.Sleep":           {"simrt", "Sleep"},
+	"time.After":           {"simrt", "AfterChan"},
+	"time.AfterFunc":       {"simrt", "AfterFunc"},
+	"time.NewTimer":        {"simrt", "NewTimer"},
+	"time.Timer":           {"simrt", "Timer"},
+	"context.AfterFunc":    {"simrt", "ContextAfterFunc"},
+	"context.WithTimeout":  {"simrt", "WithTimeout"},
+	"context.WithDeadline": {"simrt", "WithDeadline"},
 }
 
 // Uses that would let real sockets/timers into a run and have no mapping.
